@@ -998,7 +998,7 @@ func (bp *boundsProver) proveAtCallers(fn *ssa.Function, g boundsGoal, depth int
 	if depth == 0 {
 		return false, 0, "lifting bound reached"
 	}
-	node := bp.p.CallGraph().Nodes[fn]
+	node := bp.p.cgNode(fn)
 	if node == nil {
 		return false, 0, ""
 	}
@@ -1110,6 +1110,8 @@ func padAssumptions(p *Program) map[*ssa.Function][]bfact {
 				body := "len(*(param:" + pr.Name() + ".Body))"
 				length := "*(*(param:" + pr.Name() + ".Header).Length)"
 				out[f] = append(out[f], bfact{body, length, 0})
+				out[p.orig(f)] = append(out[p.orig(f)], bfact{body, length, 0})
+				out[p.orig(f)] = append(out[p.orig(f)], bfact{length, "", 1<<31 - 1})
 				// and the length fits a non-negative int32: it is either a validated header length (<= 65536)
 				// or uint32(len(x)) of an existing object (both shapes are what rulePadPrecondition accepts)
 				out[f] = append(out[f], bfact{length, "", 1<<31 - 1})
@@ -1135,9 +1137,9 @@ func rulePadPrecondition(p *Program, r *Result) {
 			r.undecided("R-BOUNDS", fnKey(pad)+":precondition", p.Pos(pad.Pos()), "the pad function has no *Packet parameter")
 			continue
 		}
-		for _, fn := range p.FuncsIn(func(path string) bool { return path == modPath }) {
+		for _, fn := range p.UnitsIn(func(path string) bool { return path == modPath }) {
 			for _, c := range allCalls(fn) {
-				if c.Common().StaticCallee() != pad {
+				if !sameFn(c.Common().StaticCallee(), pad) {
 					continue
 				}
 				n++
